@@ -4,6 +4,7 @@ from corr.corrlib import CorrSim, Q
 
 ID = 'C14'
 TARGETS = ['SmppVerif.Props.C14']
+THOROUGH_ROUNDS = 8
 RULE = ('histories of put(submit | segment | enquire_link) / get(response) / handler calls on a virtual clock with ttl in '
         '{1 s, 2.5 s, 15 s}: responses and probes at ttl-1, ttl, ttl+1 quanta and at random offsets, 1..12 outstanding '
         'requests, segmented messages among them, a far-future probe at the end; one model line per operation plus store '
